@@ -33,6 +33,7 @@ func runC03(r *hk.Run) {
 		r.Notes = append(r.Notes, "h1: "+err.Error())
 		r.Fail(hk.Failure{Sig: "harness:h1-setup", What: "HTTP/1.1 scripted peer could not be set up: " + err.Error()})
 	}
+	runTLS(r, rng.Fork())
 	runH2(r, rng.Fork())
 	runH3(r, rng.Fork())
 	_ = fmt.Sprint
